@@ -65,7 +65,8 @@ def stage_mc(module, cfg, workers=8, timeout=1500, expect_violation=None, label=
             return {"tool_error": "TLC timeout in %s/%s" % (module, cfg)}
         m = RE_MC_STATES.findall(txt)
         gen_s, dist = (int(m[-1][0]), int(m[-1][1])) if m else (0, 0)
-        viol = re.findall(r"Error: Invariant (\w+) is violated", txt) + re.findall(r"Error: Temporal properties were violated", txt)
+        viol = (re.findall(r"Error: Invariant (\w+) is violated", txt) + re.findall(r"Temporal property (\w+) was violated", txt)
+                + re.findall(r"Error: (Temporal properties were violated)", txt))
         ok = "Model checking completed. No error has been found." in txt
         cov["states"] += dist
         cov["transitions"] += gen_s
@@ -170,6 +171,13 @@ def stage_measures(ctx, cov):
     if err:
         return {"tool_error": err}
     return {"traces": [(o, "Trace_Pure") for o in outs]}
+
+
+def stage_family(ctx, fam, nparts, module, extra=None):
+    outs, err = drive_family(ctx, fam, nparts, extra)
+    if err:
+        return {"tool_error": err}
+    return {"traces": [(o, module) for o in outs]}
 
 
 def _run(cmd, **kw):
@@ -313,6 +321,15 @@ PLANS = {
                      "distinct successful Flip events",
                 nontrivial=_key_event({"Flip"})),
     "C08": dict(level="model_checking", families=[("repair", 14, 16)],
+                stages=[stage_mc("MC_FlipRepair.tla", "MC_FlipRepair_gp6.cfg", workers=4),
+                        stage_mc("MC_FlipRepair.tla", "MC_FlipRepair_grid6.cfg", workers=4),
+                        stage_mc("MC_FlipRepair.tla", "MC_FlipRepair_3d.cfg", workers=4),
+                        stage_mc("MC_FlipRepair.tla", "MC_FlipRepair_gp6_ascoded.cfg", workers=4),
+                        stage_mc("MC_FlipRepair.tla", "MC_FlipRepair_grid6_ascoded.cfg", workers=4),
+                        # design counterexample kept alive: without a convexity test the 3-D repair can cycle
+                        stage_mc("MC_FlipRepair.tla", "MC_FlipRepair_3d_ascoded_cycles.cfg", workers=4, expect_violation=["RepairTerminates"]),
+                        lambda c, v: (stage_mc("MC_FlipRepair.tla", "MC_FlipRepair_gp7.cfg", workers=6)(c, v) if c.tier == "thorough" else {}),
+                        lambda c, v: stage_family(c, "repairtrace", 14, "Trace_FlipRepair")],
                 rule="repair (both entry points, seeded/unseeded heuristic) from flip walks, inserts and removals "
                      "with repair disabled; distinct non-trivial = distinct successful Repair events",
                 nontrivial=_key_event({"Repair"})),
